@@ -3,8 +3,9 @@
    exact_hyps c toks =
      framed toks                  the list starts 8, 9, 35 and ends with 10 carrying three bytes;
      every token (tok_ok):        tag < 65536 (no 16-bit wrap: F11);
-                                  value without SOH / NUL, bytes < 256, shorter than 2048 (C03);
-                                  int-typed fields carry plain digits below 2^31 (F01 / C08);
+                                  value without SOH / NUL, bytes < 256, shorter than 2048: a longer one cannot be
+                                  extracted (extract_element fails at the buffer's capacity, C04-long-value);
+                                  int-typed fields carry an optional '-' and digits, value within the int range (F01 / C08);
                                   no Length-typed field other than BodyLength (pairing: C06);
      auto_once:                   no automatic field (8 9 35 of the header, 10 of the trailer)
                                   occurs again between the first three tokens and the last;
@@ -23,7 +24,7 @@ Local Open Scope N_scope.
 Definition val_ok (v : list N) : bool :=
   forallb (fun b => negb (b =? SOH) && negb (b =? 0) && (b <? 256)) v && (lenN v <? 2048).
 Definition canon_int (v : list N) : bool :=
-  match nat_value v with Some n => n <? 2147483648 | None => false end.
+  match int_value v with Some z => (-2147483648 <=? z)%Z && (z <? 2147483648)%Z | None => false end.
 Definition tok_ok (c : ctx) (t : tok) : bool :=
   (k_tag t <? 65536) && val_ok (k_val t) &&
   (negb (is_int_type (ftype c (k_tag t))) || canon_int (k_val t)) &&
